@@ -9,7 +9,12 @@ ASSUMPTIONS = ["programs are generated from the operator/kind/value-class table 
                "guarded regions whose conditions are all true with ordering comparisons / check_positive (default and explicit width) whose "
                "internal difference has exactly bitlength, bitlength+1, bitlength+2 bits or is -2^bitlength "
                "(gen/progs.py wide_compare_guarded_case): nothing checks a constraint under a guard, so a run that goes on must have "
-               "recorded a witness that satisfies it; from_bits on lists of secrets with values outside {0,1} (from_bits_digits_case)"]
+               "recorded a witness that satisfies it; from_bits on lists of secrets with values outside {0,1} (from_bits_digits_case)",
+               "nested guarded() regions with instructions BETWEEN the inner and the outer exit (code that runs after an inner region was left "
+               "while an outer one is still active: assert_nonzero / assert_ne, assertions and arithmetic with plain-int operands, comparisons), "
+               "all guard-value combinations with (outer taken, inner not taken) weighted up (gen/progs.py guarded_case, tail_instr); selections "
+               "whose branches are functions, through the library's if_then_else(c, f, g), with nested regions inside the branch functions "
+               "(thunk_case); both model-backed"]
 LEVELS = "VSW"
 BACKENDS = [("snarkjs", common.BN128, 0.61), ("zkinterface", common.BN128, 0.13), ("zkifbellman", common.BLS381, 0.13),
             ("zkifbulletproofs", common.ED25519, 0.13)]
@@ -19,7 +24,9 @@ def sig_of(rec, k):
     """signature of an unsatisfied constraint: the instruction shape that emitted it"""
     m = rec.case.meta
     return {"shape": m.get("shape"), "op": m.get("op"), "kinds": m.get("kinds"),
-            "guarded": "genter" in " ".join(rec.case.instrs), "backend": m.get("backend", "snarkjs")}
+            "guarded": "genter" in " ".join(rec.case.instrs), "backend": m.get("backend", "snarkjs"),
+            # code that runs after an inner region was left while an outer one is still active (gen/progs.py tail_instr)
+            "after_inner_region": bool(m.get("tail")) or "tail:" in str(m.get("op"))}
 
 
 def explore(ctx, extended=False, focus=None):
@@ -33,7 +40,9 @@ def explore(ctx, extended=False, focus=None):
     mix = [(5, progs.op_case), (1, progs.unop_case), (2, progs.method_case), (1, progs.ite_case), (2, progs.chain_case),
            (3, progs.guarded_case), (1, progs.array_case),
            # comparisons whose internal difference sits on the width boundary of check_positive, under (mostly) all-true guards
-           (1, progs.wide_compare_guarded_case), (1, progs.from_bits_digits_case)]
+           (1, progs.wide_compare_guarded_case), (1, progs.from_bits_digits_case),
+           # selections whose branches are functions (then function guarded by c, else function by ~c), nested regions inside them
+           (2, progs.thunk_case)]
     recs = []
     # every loadable backend field: the in-memory backends all record (pubvals, privvals, constraints)
     for be, p, share in BACKENDS:
